@@ -132,4 +132,8 @@ CLAUSES.append(Clause("large", None, run_large, quick=0, thorough=0, exhaustive=
                       rule="all three minimisers on structured large DFAs (130-530 states, almost minimal): k pairwise distinguishable base states, a state for every ordered pair "
                            "of base states (a -> i-th, b -> j-th base state) that differs from the other pair states only in the classes of its successors, "
                            "a spine making every state reachable; same predicates as for the random DFAs; every case is large by construction"))
+from props import workbench as WB   # noqa: E402
+
+CLAUSES.append(Clause("object_history", lambda tier: WB.fa_programs(tier, "minimize"), WB.run_fa, quick=500, thorough=5000,
+                      rule="(the three minimisers on DFA objects with a history: queried, minimised, modified in place or by assigning new values to their fields, minimised again) " + WB.FA_RULE))
 KNOWN_PREDICATES = {}
